@@ -25,10 +25,35 @@ import (
 //go:embed testdata/rsa_pool.pem
 var rsaPoolPEM []byte
 
+//go:embed testdata/rsa_collide.pem
+var rsaCollidePEM []byte
+
 var (
 	poolOnce sync.Once
 	pool     []*rsa.PrivateKey
 )
+
+// RSACollidingPair returns two 2048-bit keys whose token key ids end in the same byte
+// (smaller modulus first; the moduli differ by about 25%, so a message blinded for the larger key
+// is rejected by the smaller one about one time in four).
+func RSACollidingPair() [2]*rsa.PrivateKey {
+	var out [2]*rsa.PrivateKey
+	rest := rsaCollidePEM
+	for i := 0; i < 2; i++ {
+		var blk *pem.Block
+		blk, rest = pem.Decode(rest)
+		k, err := x509.ParsePKCS1PrivateKey(blk.Bytes)
+		if err != nil {
+			panic(err)
+		}
+		k.Precompute()
+		out[i] = k
+	}
+	if out[0].N.Cmp(out[1].N) > 0 {
+		out[0], out[1] = out[1], out[0]
+	}
+	return out
+}
 
 // RSAPool returns the committed pool of 2048-bit keys (the token codecs fix the size).
 func RSAPool() []*rsa.PrivateKey {
@@ -89,7 +114,7 @@ func Challenge() *rapid.Generator[[]byte] {
 			n = rapid.IntRange(0, 300).Draw(t, "len")
 		}
 		fill := rapid.Byte().Draw(t, "fill")
-		b := rapid.SliceOfN(rapid.Byte(), 0, 48).Draw(t, "head")
+		b := Bytes(t, 0, 48, "head")
 		out := bytes.Repeat([]byte{fill}, n)
 		copy(out, b)
 		return out
@@ -265,3 +290,20 @@ func UniformRange(t *rapid.T, lo, hi int, label string) int { return lo + Unifor
 
 // Pick draws one element uniformly.
 func Pick[T any](t *rapid.T, xs []T, label string) T { return xs[Uniform(t, len(xs), label)] }
+
+// Bytes draws a byte string whose LENGTH is uniform in [lo, hi] (rapid's SliceOfN
+// strongly prefers short slices, which starves length boundaries such as 66-byte
+// digests on P-521 or 255/256-byte payloads).
+func Bytes(t *rapid.T, lo, hi int, label string) []byte {
+	n := UniformRange(t, lo, hi, label+"/len")
+	return rapid.SliceOfN(rapid.Byte(), n, n).Draw(t, label)
+}
+
+// Digest draws a message digest of length 0..128 biased to the byte lengths around the orders of the NIST curves.
+func Digest(t *rapid.T, label string) []byte {
+	if Uniform(t, 3, label+"/edge") == 0 {
+		n := Pick(t, []int{0, 1, 20, 27, 28, 29, 31, 32, 33, 47, 48, 49, 63, 64, 65, 66, 67, 127, 128}, label+"/edgelen")
+		return rapid.SliceOfN(rapid.Byte(), n, n).Draw(t, label)
+	}
+	return Bytes(t, 0, 128, label)
+}
